@@ -344,7 +344,11 @@ def record_job(job):
         rem = None
         if opts.get("coarse"):
             rem = gen.logu(rng, 0.1, 10.0)
-        sc = scenario(rng, kind=kind, removal=rem)
+        if opts.get("overcool"):
+            rem = rng.uniform(0.25, 0.97)          # one step removes a large part of the feed: self-cooling below 0 K
+        sc = scenario(rng, kind=kind, removal=rem, prog_p=0.0 if opts.get("overcool") else 0.4)
+        if opts.get("overcool"):
+            sc["N"] = 2                            # the over-cooled state is the last one reported
         if opts.get("maxN"):
             sc["N"] = min(sc["N"], opts["maxN"])
         tr, res = trace_process(rng, sc, with_std=opts.get("with_std", True), with_fits=opts.get("with_fits", False),
